@@ -361,7 +361,9 @@ func native(outPath string) {
 		"tslice": []int64{1, 2}, "tmap": map[string]int64{"a": 1, "b": 2}, "bytes": []byte("ab"), "ptr": new(int64), "ch": make(chan int64, 2), "fn": func(int64) int64 { return 0 },
 		"struct": struct{ A int }{1}, "i32": int32(5), "u8": uint8(200), "f32": float32(2.5),
 		// named types keep Go's default formatting (their String method where they have one): only a plain []byte is text
-		"ip": net.ParseIP("10.0.0.1"), "rawmsg": json.RawMessage("ab"), "dur": 1500 * time.Nanosecond, "hw": net.HardwareAddr{1, 2, 3, 4, 5, 6}, "namedstr": reflect.Kind(2)}
+		"ip": net.ParseIP("10.0.0.1"), "rawmsg": json.RawMessage("ab"), "dur": 1500 * time.Nanosecond, "hw": net.HardwareAddr{1, 2, 3, 4, 5, 6}, "namedstr": reflect.Kind(2),
+		// typed nils are values of their types, not the untyped nil
+		"nilslice": []string(nil), "nilmap": map[string]int64(nil), "nilptr": (*int64)(nil), "nilfn": (func(int64) int64)(nil), "nilch": (chan int64)(nil), "nilbytes": []byte(nil)}
 	call := func(src string, v interface{}) (interface{}, error) {
 		e := newEnv()
 		e.Define("v", v)
@@ -504,9 +506,34 @@ func packages(outPath string) {
 			names = append(names, n)
 		}
 		sort.Strings(names)
+		// what `import` OFFERS is audited, not the table behind it: the module is obtained by a script, after another script has
+		// written into a module of the same package that it received without a copy (function argument, literal element)
+		poison := newEnv()
+		for _, n := range names {
+			exec1(poison, "(func(pk) { pk."+n+" = 5 })(import(\""+p+"\"))")
+		}
+		mod, merr := exec1(newEnv(), "import(\""+p+"\")")
+		modEnv, _ := mod.(*env.Env)
 		for _, n := range names {
 			v := env.Packages[p][n]
+			differs := ""
+			if merr == nil && modEnv != nil {
+				ov, gerr := modEnv.GetValue(n)
+				switch {
+				case gerr != nil:
+					differs = fmt.Sprintf("import does not offer it: %v", gerr)
+				case ov.Type() != v.Type():
+					differs = "import offers a " + ov.Type().String()
+				case v.Kind() == reflect.Func && !v.IsNil() && ov.Pointer() != v.Pointer():
+					differs = "import offers another function"
+				}
+			}
 			e := map[string]interface{}{"pkg": p, "name": n, "kind": "value", "sym": "", "type": v.Type().String()}
+			if differs != "" {
+				e["kind"], e["sym"] = "func", differs // (rejected by EntryOK: not the function it is listed under)
+				enc.Encode(e)
+				continue
+			}
 			if v.Kind() == reflect.Func && !v.IsNil() {
 				e["kind"] = "func"
 				if fn := runtime.FuncForPC(v.Pointer()); fn != nil {
